@@ -6,11 +6,18 @@
   order on well names, sets of any length, every non-decreasing sequence of evaluation times with
   any condition outcomes, any limits.
 
+  Third round: `eval_matches_tree` (the match set of a WHOLE tree, any nesting), `eval_cmp_leaf`,
+  `sim_run_limits` (several actions over report steps refine the single-action machine),
+  `sim_not_pending_no_run`, `actions_add_*`, `load_rst_fresh`, `classify_*` (`Parser::get_type`),
+  `glob_*` (`fnmatch` patterns of well arguments).
+
   Second round: `act_parse_render` (`parse (render c) = c` for every condition tree, with the
   model's own fuel), parser totality and fuel monotonicity.
 -/
 import OpmVerif.Proofs.Action
 import OpmVerif.Proofs.ActionParse
+import OpmVerif.Proofs.ActionTree
+import OpmVerif.Proofs.ActionSim
 
 namespace OpmVerif.Props.C18
 open OpmVerif.Act
@@ -111,6 +118,118 @@ theorem act_parser_fuel_monotone {n m : Nat} {ts : List Tok} {r : PRes} (h : par
     (hr : r ≠ .fuel) (hnm : n ≤ m) : parseOr m ts = r :=
   parseOr_mono h hr hnm
 
+
+/-! ## Third round -/
+
+/-- `eval_matches_tree`: for ANY condition tree (any number of comparisons, any nesting of AND / OR),
+if every evaluated comparison yields the result `lr` with truth value `v`, no wells when false and a
+sorted well list, then `ASTNode::eval` returns (`Agrees`): the truth value of the expression; no wells
+when the condition is false; when it is true, a set iff the recursion `specHas` says so (a well-level
+comparison; an OR with a TRUE set-carrying operand; an AND with a set-carrying operand) whose members
+are exactly `specIn`: union over the true set-carrying operands of every OR, intersection over the
+set-carrying operands of every AND — scalar and false sub-conditions contribute no set. -/
+theorem eval_matches_tree (slt : String → String → Bool) (st : StrictTotal slt)
+    (leafEval : CmpOp → Leaf → Leaf → Except Unit (Res String))
+    (lr : CmpOp → Leaf → Leaf → Res String) (v : CmpOp → Leaf → Leaf → Bool)
+    (hleaf : ∀ o l r res, leafEval o l r = .ok res →
+      res = lr o l r ∧ res.ok = v o l r ∧ (res.ok = false → res.wells.getD [] = []) ∧
+      ∀ w, res.wells = some w → Sorted slt w)
+    (c : Cond) (res : Res String) (h : evalCond slt leafEval c = .ok res) :
+    res.ok = truth v c ∧
+    (res.ok = false → res.wells.getD [] = []) ∧
+    (res.ok = true → res.wells.isSome = specHas lr v c ∧
+      ∀ w, res.wells = some w → Sorted slt w ∧ ∀ z, z ∈ w ↔ specIn lr v z c) :=
+  (evalCond_agrees slt st leafEval lr v hleaf).1 c res h
+
+/-- `eval_cmp_leaf`: the results of `Value::eval_cmp` satisfy the leaf hypotheses of
+`eval_matches_tree` — a false well-level comparison has an empty set, the set is sorted. -/
+theorem eval_cmp_leaf {α : Type} (lt eq : α → α → Bool) (slt : String → String → Bool) (st : StrictTotal slt)
+    (op : CmpOp) (a b : Value α) (res : Res String) (h : evalCmp lt eq slt op a b = .ok res) :
+    (res.ok = false → res.wells.getD [] = []) ∧ ∀ w, res.wells = some w → Sorted slt w :=
+  evalCmp_leaf lt eq slt st op a b res h
+
+/-- `sim_refines_drive`: in a simulation with any number of actions (pairwise distinct identities)
+over any report steps, the runs of one action, and its final state, are exactly those of the
+single-action machine `drive` fed with that action's own outcomes: `Actions::pending` +
+`State::add_run` of the other actions never interfere. -/
+theorem sim_refines_drive (acts : List ActDef) (hnd : (acts.map (·.key)).Nodup) (a : ActDef) (ha : a ∈ acts)
+    (evs : List (Int × (Key → Bool))) (s : AState) :
+    runsOf a.key (sim acts s evs) = drive a.lim (s a.key) (evs.map fun e => (e.1, e.2 a.key)) ∧
+    (simState acts s evs) a.key = finalState a.lim (s a.key) (evs.map fun e => (e.1, e.2 a.key)) :=
+  sim_proj acts hnd a ha evs s
+
+/-- `sim_run_limits`: over any history of report steps with non-decreasing times and any condition
+outcomes of all actions, every action runs at most `max_run` times in total, never before its start,
+and never sooner than `min_wait` after its previous run. -/
+theorem sim_run_limits (acts : List ActDef) (hnd : (acts.map (·.key)).Nodup) (a : ActDef) (ha : a ∈ acts)
+    (evs : List (Int × (Key → Bool))) (s : AState)
+    (hmono : ∀ i (h : i + 1 < evs.length), (evs[i]'(by omega)).1 ≤ (evs[i+1]'h).1)
+    (hlast : (s a.key).count > 0 → ∀ e ∈ evs, (s a.key).last ≤ e.1) :
+    let runs := runsOf a.key (sim acts s evs)
+    runs.length ≤ a.lim.maxRun - (s a.key).count ∧
+    (∀ t ∈ runs, a.lim.start ≤ t) ∧
+    (∀ t ∈ runs, (s a.key).count > 0 → 0 < a.lim.minWait → a.lim.minWait ≤ t - (s a.key).last) ∧
+    (0 < a.lim.minWait → ∀ i (h : i + 1 < runs.length), a.lim.minWait ≤ (runs[i+1]'h) - (runs[i]'(by omega))) :=
+  OpmVerif.Act.sim_run_limits acts hnd a ha evs s hmono hlast
+
+/-- an action that `Actions::pending` does not list at a report step does not run at it -/
+theorem sim_not_pending_no_run (acts : List ActDef) (hnd : (acts.map (·.key)).Nodup) (a : ActDef) (ha : a ∈ acts)
+    (s : AState) (t : Int) (oc : Key → Bool) (h : a ∉ pendingA acts s t) :
+    runsOf a.key (sim acts s [(t, oc)]) = [] :=
+  not_pending_no_run acts hnd a ha s t oc h
+
+/-- `Actions::add` keeps the names pairwise distinct, hence the (name, id) identities `State` is
+keyed by (the hypothesis of `sim_run_limits`). -/
+theorem actions_add_distinct (acts : List ActDef) (name : String) (lim : Limits)
+    (h : (acts.map (·.key.1)).Nodup) :
+    ((addAction acts name lim).map (·.key.1)).Nodup ∧ ((addAction acts name lim).map (·.key)).Nodup :=
+  ⟨addAction_names acts name lim h, keys_nodup_of_names _ (addAction_names acts name lim h)⟩
+
+/-- `Touched` (runs are recorded only for ids up to the current id of a name) holds for the empty
+state and is kept by every simulation and by `Actions::add`; under it a REDEFINED action (same name,
+id + 1) starts from run count 0. -/
+theorem actions_add_redefine_fresh (acts : List ActDef) (s : AState) (name : String) (lim : Limits)
+    (hn : (acts.map (·.key.1)).Nodup) (h : Touched acts s) (a : ActDef) (ha : a ∈ acts) (han : a.key.1 = name) :
+    (⟨(name, a.key.2 + 1), lim⟩ : ActDef) ∈ addAction acts name lim ∧ (s (name, a.key.2 + 1)).count = 0 :=
+  addAction_redefine_fresh acts s name lim hn h a ha han
+
+theorem touched_invariant (acts : List ActDef) :
+    Touched acts AState.empty ∧
+    (∀ evs s, Touched acts s → Touched acts (simState acts s evs)) ∧
+    (∀ s name lim, Touched acts s → Touched (addAction acts name lim) s) :=
+  ⟨touched_empty acts, touched_sim acts, fun s name lim h => touched_addAction acts s name lim h⟩
+
+/-- `State::load_rst`: an action restored with `run_count` n > 0 and `last_run` t has exactly that
+state, so `sim_run_limits` continues from it (`max_run - n` further runs, `min_wait` after t). -/
+theorem load_rst_fresh (s : AState) (k : Key) (count : Nat) (last : Int) (h0 : (s k).count = 0) (hc : count > 0) :
+    (loadRst s k count last) k = ⟨count, last⟩ :=
+  loadRst_fresh s k count last h0 hc
+
+/-- `Parser::get_type`: each of the 16 operator spellings (`AND OR ( ) > .GT. >= .GE. < .LT. <= .LE.
+= .EQ. != .NE.`) in ANY letter case is classified as its token type. -/
+theorem classify_operator_any_case (s : List Char) (sp : String) (t : TT) (hmem : (sp, t) ∈ opTable)
+    (hl : lowerL s = sp.toList) : classify s = t :=
+  classify_op_any_case s sp t hmem hl
+
+/-- `Parser::get_type`: a token that is not an operator spelling and whose first character cannot
+start a `strtod` subject sequence is an expression (summary keyword, well / group name, month name …). -/
+theorem classify_identifier (s : List Char) (c : Char) (r : List Char) (hl : lowerL s = c :: r)
+    (htab : opTable.lookup (String.ofList (c :: r)) = none)
+    (h1 : isSpaceC c = false) (h2 : isDig c = false) (h3 : c ≠ '+') (h4 : c ≠ '-') (h5 : c ≠ '.')
+    (h6 : c ≠ 'i') (h7 : c ≠ 'n') : classify s = .expr :=
+  classify_ident s c r hl htab h1 h2 h3 h4 h5 h6 h7
+
+/-- well patterns: `*` matches every well name -/
+theorem glob_star (s : List Char) : globMatch ['*'] s = true := globMatch_star s
+
+/-- a well argument without meta characters matches exactly that name -/
+theorem glob_literal (p s : List Char) (h : Literal p) : globMatch p s = true ↔ s = p :=
+  globMatch_literal p s h
+
+/-- `PREFIX*` matches exactly the names starting with `PREFIX` -/
+theorem glob_prefix_star (p s : List Char) (h : Literal p) : globMatch (p ++ ['*']) s = true ↔ p <+: s :=
+  globMatch_prefix_star p s h
+
 /-! ### Non-vacuity -/
 
 def natLt (a b : Nat) : Bool := decide (a < b)
@@ -152,5 +271,44 @@ example : WFC sampleCond := by
 
 /-- the round trip on the sample, computed by the kernel -/
 example : parseOr (4 * 37 + 4) (render sampleCond) = .ok sampleCond [] := by rfl
+
+
+/-! third round -/
+
+/-- two actions, A (max_run 1) and B (max_run 2, min_wait 10): over 4 report steps where both
+conditions always hold A runs once, B at 0 and 10 -/
+def actsAB : List ActDef := [⟨("A", 0), ⟨1, 0, 0⟩⟩, ⟨("B", 0), ⟨2, 10, 0⟩⟩]
+example : sim actsAB AState.empty [(0, fun _ => true), (5, fun _ => true), (10, fun _ => true), (20, fun _ => true)] =
+    [(("A", 0), 0), (("B", 0), 0), (("B", 0), 10)] := by decide +kernel
+example : (actsAB.map (·.key)).Nodup := by decide +kernel
+/-- redefining A gives it id 1 -/
+example : (addAction actsAB "A" ⟨3, 0, 0⟩).map (·.key) = [("A", 1), ("B", 0)] := by decide +kernel
+
+example : classify ".Ge.".toList = .cmp .ge := by decide +kernel
+example : classify "WOPR".toList = .expr := by decide +kernel
+example : classify "1.5e3".toList = .number := by decide +kernel
+example : classify "NAN".toList = .number := by decide +kernel     -- `strtod` accepts it
+example : classify "1.5x".toList = .expr := by decide +kernel
+example : lowerL "Or".toList = "or".toList ∧ ("or", TT.or) ∈ opTable := by decide +kernel
+example : globMatch "P*".toList "P12".toList = true ∧ globMatch "P*".toList "OP1".toList = false := by decide +kernel
+example : globMatch "?P*1".toList "OP_1".toList = true := by decide +kernel
+example : Literal "OP_".toList := by
+  intro c hc
+  have : c = 'O' ∨ c = 'P' ∨ c = '_' := by simpa using hc
+  rcases this with rfl | rfl | rfl <;> decide
+
+/-- `(WOPR * > 1 OR FOPR > 1) AND WWCT * < 1` with WOPR holding for P1, P2 and WWCT for P2, P3:
+the tree theorem's leaf hypotheses are met and the model returns {P2} -/
+def sampleLeaf (o : CmpOp) (l r : Leaf) : Res String :=
+  match l with
+  | .expr "WOPR" _ _ => ⟨true, some ["P1", "P2"]⟩
+  | .expr "WWCT" _ _ => ⟨true, some ["P2", "P3"]⟩
+  | _ => ⟨o == .gt, none⟩
+def sampleTree : Cond :=
+  .and (.or (.cmp .gt (.expr "WOPR" 1 ["*"]) (.num 0)) (.cmp .gt (.expr "FOPR" 0 []) (.num 0)))
+       (.cmp .lt (.expr "WWCT" 1 ["*"]) (.num 0)) []
+example : (match evalCond (fun a b => decide (a < b)) (fun o l r => .ok (sampleLeaf o l r)) sampleTree with
+    | .ok r => r.ok && r.wells == some ["P2"]
+    | .error _ => false) = true := by decide +kernel
 
 end OpmVerif.Props.C18
